@@ -141,6 +141,7 @@ structure OneStep (p : Params C O) (via : Via) (s s' : Ev C O) (id : Nat) (j' : 
   inv : Inv s'
   sub : ∀ i, i ∈ s'.submitted ↔ i ∈ s.submitted ∧ i ≠ id
   del : s'.delivered = s.delivered ++ [(id, via)]
+  jd : s'.jobsDone = s.jobsDone ++ [id]
   st : j'.status = .done
   out : j'.out = some (p.f j'.cfg)
   jid : j'.id = id
@@ -199,7 +200,7 @@ theorem Inv.processOne {p : Params C O} {via : Via} {s s' : Ev C O} {id : Nat} {
     have := congrArg (List.map Prod.fst) hcfgs
     simpa [List.map_map, Function.comp_def, idCfg] using this
   subst hs'
-  refine ⟨⟨?_, ?_, ?_, ?_, ?_, ?_⟩, hmemsub, rfl, hj'st, ?_, hj'id, hmem, hframe, hcfgs, rfl, rfl, rfl, ?_⟩
+  refine ⟨⟨?_, ?_, ?_, ?_, ?_, ?_⟩, hmemsub, rfl, rfl, hj'st, ?_, hj'id, hmem, hframe, hcfgs, rfl, rfl, rfl, ?_⟩
   · exact hids.trans h.ids
   · show (s.running.eraseP _).map _ = s.submitted.erase id
     rw [map_id_eraseP, h.runSub]
@@ -248,6 +249,7 @@ structure ManyStep (p : Params C O) (via : Via) (s s' : Ev C O) (l : List Nat)
   inv : Inv s'
   sub : ∀ i, i ∈ s'.submitted ↔ i ∈ s.submitted ∧ i ∉ l
   del : s'.delivered = s.delivered ++ l.map (fun i => (i, via))
+  jd : s'.jobsDone = s.jobsDone ++ l
   ids : js.map (·.id) = l
   res : ∀ j ∈ js, j.status = .done ∧ j.out = some (p.f j.cfg) ∧ j ∈ s'.jobs
   frame : ∀ x : JobRec C O, x.id ∉ l → (x ∈ s'.jobs ↔ x ∈ s.jobs)
@@ -261,7 +263,7 @@ theorem Inv.processAll {p : Params C O} {via : Via} :
     ∀ (l : List Nat) (s : Ev C O), Inv s → l.Nodup → (∀ i ∈ l, RunningAt s i) →
       ∃ s' js, processAll p via s l = (s', .ok js) ∧ ManyStep p via s s' l js
   | [], s, h, _, _ =>
-    ⟨s, [], rfl, ⟨h, by simp, by simp, rfl, by simp, by simp, rfl, rfl, rfl, rfl, rfl⟩⟩
+    ⟨s, [], rfl, ⟨h, by simp, by simp, by simp, rfl, by simp, by simp, rfl, rfl, rfl, rfl, rfl⟩⟩
   | id :: rest, s, h, hn, hr => by
     obtain ⟨s1, j, hp⟩ := h.processOne_ok (p := p) (via := via) (hr id (by simp))
     have one := h.processOne (hr id (by simp)) hp
@@ -275,12 +277,13 @@ theorem Inv.processAll {p : Params C O} {via : Via} :
       exact hri.2 x ((one.frame x (by rw [hxi]; exact hne)).1 hx) hxi
     obtain ⟨s2, js, hp2, many⟩ := Inv.processAll (p := p) (via := via) rest s1 one.inv hn'.2 hr1
     refine ⟨s2, j :: js, by simp [DH.Evaluator.processAll, hp, hp2], ?_⟩
-    refine ⟨many.inv, ?_, ?_, ?_, ?_, ?_, ?_, ?_, ?_, ?_, ?_⟩
+    refine ⟨many.inv, ?_, ?_, ?_, ?_, ?_, ?_, ?_, ?_, ?_, ?_, ?_⟩
     · intro i
       rw [many.sub, one.sub]
       simp only [List.mem_cons, not_or]
       exact ⟨fun h => ⟨h.1.1, h.1.2, h.2⟩, fun h => ⟨⟨h.1, h.2.1⟩, h.2.2⟩⟩
     · rw [many.del, one.del]; simp
+    · rw [many.jd, one.jd]; simp
     · simp [many.ids, one.jid]
     · intro x hx
       rcases List.mem_cons.1 hx with rfl | hx
